@@ -83,7 +83,7 @@ func Run(r *ev.Run, tier string) {
 		r.Machinery("TLC on GluonRecent.ascode.one.cfg was expected to report OneClaimant violated (documented deviation of the code): err=%v violated=%q error=%q", err, res.Violated, res.Error)
 		return
 	}
-	maxAll, simNum := 700, 250
+	maxAll, simNum := 500, 150
 	if tier == "thorough" {
 		maxAll, simNum = 0, 4000
 	}
@@ -124,11 +124,11 @@ func Run(r *ev.Run, tier string) {
 		all = sel
 	}
 	var sims []*trace
-	res, err = tlc.Run(tlc.Options{SpecDir: specDir, Module: "GluonRecent", Cfg: filepath.Join(specDir, "cfg", "GluonRecent.sim.cfg"), Workers: 1, Simulate: true, SimNum: simNum, SimDepth: 12,
+	res, err = tlc.Run(tlc.Options{SpecDir: specDir, Module: "GluonRecent", Cfg: filepath.Join(specDir, "cfg", "GluonRecent.sim.cfg"), Workers: 1, Simulate: true, SimNum: simNum / 8, SimDepth: 12,
 		Seed: ev.Seed()*7919 + 13, Timeout: 10 * time.Minute, KeepOutput: true,
 		OnJSON: func(raw []byte) {
 			var t trace
-			if json.Unmarshal(raw, &t) == nil && len(t.Steps) > 0 {
+			if len(sims) < simNum && json.Unmarshal(raw, &t) == nil && len(t.Steps) > 0 {
 				t.Src = "GluonRecent.sim.cfg"
 				sims = append(sims, &t)
 			}
